@@ -694,6 +694,8 @@ class Interp:
     def star_items(self, v, node):
         if isinstance(v, VUnknown):
             return [VUnknown("*" + v.tag, "starred", v.origin)]
+        if isinstance(v, VList) and v.obj.items is None:
+            return [VUnknown("*list", "starred")]
         raise Unsupported("star-unpack of %r" % (v,), node, self.site(node))
 
     def ev_Dict(self, node):
